@@ -6,7 +6,7 @@ V = os.path.dirname(os.path.abspath(__file__))
 CHECKS = {
  "C01": ("exploration", "4 C01", "Seeded search over wake schedules and fault sequences (spurious polls, fresh waker per poll, stale/duplicate/in-poll/lock-boundary wakes, never-ready children) with the notification invariant (CP1/CP2) checked at every event and bounded liveness checked at quiescence against per-family reference models, flat and nested shapes and group histories, all three feature configurations (engine A); plus the std waker protocol under real thread interleavings of a poller and 1-3 foreign waker threads decided by shuttle's seeded Random/PCT schedulers, where a lost wake-up is a detected deadlock (engine B)."),
  "C02": ("fault_enumeration", "4 C02", "For each sampled scenario every crash point is enumerated: drop of the combinator after k polls for all k, and a panic at every single child poll; drop/return accounting of every child and value (plain-integer handles with canaries) is checked at the end of each execution. Engine B adds drops of the combinator on the poller thread while foreign waker threads still fire. The thorough tier additionally interprets a sample of the same executions under Miri; a process killed by a signal is reported as a violation with the execution that caused it."),
- "C03": ("exploration", "4 C03", "Log predicates over every simulated execution: no poll after Ready/None, every child poll inside a poll frame of its owner, none during construction, group operations or drop."),
+ "C03": ("exploration", "4 C03", "Log predicates over every simulated execution: no poll after Ready/None, every child poll inside a poll frame of its owner, none during construction, group operations or drop, and none when a combinator is polled again after its final result (fault F15)."),
  "C04": ("exploration", "4 C04", "Log-relative reference model of join evaluated at the end of every root poll (resolves exactly in the frame of the last child, positional output), all containers and sizes incl. 22/23 and 64/65 boundaries."),
  "C05": ("exploration", "4 C05", "Log-relative reference model of try_join (first observed error wins in that frame, nothing polled afterwards, produced values dropped not returned)."),
  "C06": ("exploration", "4 C06", "Log-relative reference model of race (first child seen to resolve wins in that frame; losers never polled again and dropped unfinished)."),
@@ -21,7 +21,7 @@ CHECKS = {
  "C15": ("exploration", "4 C15", "Adapter stacks over {map, enumerate, take, limit} with terminals collect/for_each/try_for_each against a sequential model of processed items."),
  "C16": ("exploration", "4 C16", "Log predicate in the std configuration: a child that last returned Pending is polled again only if some waker handed to it (or to an earlier holder of its group key) fired in between; spurious polls emphasised."),
  "C17": ("exploration", "4 C17", "Sliding-window check over the provenance of yielded items with one always-ready input at a drawn position."),
- "C19": ("exploration", "4 C19", "Log-relative model of wait_until for futures and streams (inner untouched before the deadline, deadline never polled afterwards, pass-through from the very same poll)."),
+ "C19": ("exploration", "4 C19", "Log-relative model of wait_until for futures and streams (inner untouched before the deadline, deadline never polled afterwards, pass-through from the very same poll), also for the chained form x.wait_until(d1).wait_until(d2) and for polls after the inner stream ended."),
  "C20": ("exploration", "4 C20", "At every Pending return every owned child has been polled; with never-ready children at drawn positions the finite siblings still complete and results are delivered (quiescence check)."),
 }
 IMPLEMENTED = [l.strip() for l in open(os.path.join(V, "implemented.txt")) if l.strip() and not l.startswith("#")]
@@ -41,7 +41,7 @@ for pid in sorted(CHECKS):
         "replay_cmd_template": "./check replay {path}",
         "engine": "sim (engine A)" + (" + mt (engine B, shuttle)" if pid in ("C01", "C02") and os.path.isdir(os.path.join(V, "mt")) else ""),
         "level_claimed": {"category": level, "text": text, "design_ref": "DESIGN.md §" + ref},
-        "level_note": "Trusted base: the simulator in /verif/sim (scripted children, generation-strict executor, reference-model oracles; no unsafe code), rustc, and the assumption that children follow the scripted-leaf language (finite scripts of Pending/Ready/Item/End steps, wakes between polls, inside polls, from another thread at lock boundaries, from destructors; no re-entrant polling of the combinator from a waker). Sampling of schedules/faults, not enumeration (C02: crash points are enumerated completely per sampled scenario). Sensitivity: 43 own mutants and 112 independently seeded property-breaking changes, see DESIGN.md section 11.",
+        "level_note": "Trusted base: the simulator in /verif/sim (scripted children, generation-strict executor, reference-model oracles; no unsafe code), rustc, and the assumption that children follow the scripted-leaf language (finite scripts of Pending/Ready/Item/End steps, wakes between polls, inside polls, from another thread at lock boundaries, from destructors; no re-entrant polling of the combinator from a waker). Sampling of schedules/faults, not enumeration (C02: crash points are enumerated completely per sampled scenario). Sensitivity: 44 own mutants and 166 independently seeded property-breaking changes, see DESIGN.md section 11.",
         "technique": ("deterministic simulation with fault injection: seeded schedule/fault search with reference-model oracles over the event log" + ("; complete crash-point enumeration per sampled scenario" if pid == "C02" else "") + ("; shuttle-controlled thread interleavings" if pid in ("C01", "C02") else "")),
     })
 na = [{"property_id": k, "reason": v} for k, v in NA.items()]
@@ -63,7 +63,7 @@ m = {
  ],
  "checks": checks,
  "not_applicable": na,
- "notes": "All checks: ./check <ID> [--tier quick|thorough] [--seed N]; VERIF_SEED/VERIF_TIER honoured; exit 0/1/2 = held / violation / harness error (build failure, nondeterminism, driver exception). Known findings: /verif/known_findings.json (no open entry; two defects found by the machinery were repaired with fix: commits 3d2d4eb and ce43740, replay files in /verif/findings/). New violations: replay files in /verif/replays/, re-run with ./check replay <file>. Sensitivity suites: ./check mutants [--seeded] (scratch worktrees, never /repo). Determinism proof: ./check selftest.",
+ "notes": "All checks: ./check <ID> [--tier quick|thorough] [--seed N]; VERIF_SEED/VERIF_TIER honoured; exit 0/1/2 = held / violation / harness error (build failure, nondeterminism, driver exception). Known findings: /verif/known_findings.json (no open entry; three defects found by the machinery were repaired with fix: commits 3d2d4eb, ce43740 and 1f62ff7, replay files in /verif/findings/). New violations: replay files in /verif/replays/, re-run with ./check replay <file>. Sensitivity suites: ./check mutants [--seeded] (scratch worktrees, never /repo). Determinism proof: ./check selftest.",
 }
 if os.path.isdir(os.path.join(V, "mt")):
     m["engines"].append({"name": "mt", "path": "/verif/mt", "serves_properties": ["C01", "C02"], "kind_free_text": "engine B: shuttle-controlled threads (poller + foreign wakers) over the real crate built through a shadow manifest with shuttle::sync::Mutex behind the hook"})
